@@ -176,6 +176,14 @@ def run_case(case):
     scal = case["scal"] if (case["layout"] != "rgb" and np.dtype(stored).kind in "iu") else None
     if scal:
         img.header.set_slope_inter(*scal)
+    if case["aseed"] % 5 == 0:
+        # a header that carries BOTH transformations, and they differ (scanner-space qform,
+        # template-space sform): the file's affine - what nibabel reports - is the sform
+        Q = np.eye(4)
+        Q[:3, :3] = np.diag([0.7, 0.9, 1.3])
+        Q[:3, 3] = [-11.0, 4.0, 25.0]
+        img.header.set_qform(Q, code=1)
+        img.header.set_sform(A, code=2)
     unit = None
     if case["aseed"] % 3 == 0:
         # the header declares a spatial unit; whatever convention the tool follows for it
@@ -185,6 +193,7 @@ def run_case(case):
         img.header.set_xyzt_units(xyz=unit)
     top = tempfile.mkdtemp(prefix="c16-")
     obs = {"infos": 0, "voxels_checked": 0, "vias": {case["via"]: 1},
+           "headers_with_differing_qform_and_sform": int(case["aseed"] % 5 == 0),
            "akinds": {case["akind"]: 1}, "imperfect_status": 0, "sharding_valid": 0,
            "sharding_malformed_refused": 0, "negative_det": 0, "worst_rel_err_e16": 0}
     v = []
@@ -402,6 +411,11 @@ def gates(obs, tier):
         "all_affine_kinds": len(obs.get("akinds", {})) == 7,
         "library_and_command_line": len(obs.get("vias", {})) == 2,
         "voxels_checked": obs.get("voxels_checked", 0) > 1000,
+        "headers_with_differing_qform_and_sform": obs.get(
+            "headers_with_differing_qform_and_sform", 0) > 100,
+        "headers_declaring_a_spatial_unit": obs.get("headers_declaring_a_spatial_unit", 0) > 100,
+        "second_description_into_the_same_directory": obs.get(
+            "second_description_into_the_same_directory", 0) > 20,
         "imperfect_status_seen": obs.get("imperfect_status", 0) > 10,
         "mirroring_affines": obs.get("negative_det", 0) > 10,
         "compact_forms_with_exponents": obs.get("compact_entries_with_exponent", 0) > 50,
